@@ -347,7 +347,12 @@ def _run_kernels(ck, hb, db, nfiles, nk, nargs, work):
             nb += 1
             rep = "## kernel %s\n%s\nOKLFILE %s" % (sig, "\n".join("## " + l for l in text.splitlines()), hx(text))
             if not bf.startswith("built fresh ") or not bc.startswith("built cached "):
-                ck.problems.append(("tie", "kernel %s does not build: fresh=%s cached=%s" % (sig, bf[:300], bc[:300])))
+                if "Error compiling" in bf + bc:
+                    # the translated source is not valid C++: a defect of the OKL printer, with a concrete input
+                    ck.oracle_violation("translated OKL source does not compile (file with %s)" % ", ".join(
+                        sorted(set(re.findall(r"typedef \w+ \*?td\d_t", text))) or ["kernel " + sig])[:200], where, name="okl")
+                else:
+                    ck.problems.append(("tie", "kernel %s does not build: fresh=%s cached=%s" % (sig, bf[:300], bc[:300])))
                 # skip this kernel's lines
                 fpos += len(lists) + 2
                 cpos += len(lists)
